@@ -153,6 +153,13 @@ def gen_cases(rng, tier):
         for op in unary:
             subs, vals = c03.sparse_from_pattern(shape, rpat(), rng, "sorted")
             cases.append(mk_case(op, {"shape": list(shape), "subs": subs, "vals": vals}, rng))
+    # large sparse operands (more than 1000 candidate row pairs in the row helpers)
+    for shape in ((6, 6), (4, 3, 3)):
+        n = math.prod(shape)
+        for op in ("mul", "eq", "le", "and", "sub", "ne"):
+            pa = [int(rng.random() < 0.95) for _ in range(n)]
+            pb = [int(rng.random() < 0.95) for _ in range(n)]
+            cases.append(mk_case(op, c03.binary_args(shape, pa, pb, "sparse", rng, "sorted", "sorted"), rng))
     # squash and from_aggregator
     for _ in range(400 if big else 120):
         shape = tuple(tgen.rand_shape(rng, maxn=3, maxcells=60, maxdim=6))
